@@ -942,13 +942,13 @@ def run(write=True):
         fn(out, srcs)
     files = {}
     import py2lean
-    fn_text = py2lean.run(out)
+    fn_texts = py2lean.run(out)
     for fname, defs in out.defs.items():
         text = ("-- GENERATED by /verif/py/extract.py from the working tree of /repo. Do not edit.\n"
                 "import Paho.Model.Basic\n"
                 "namespace Paho.Gen\nopen Paho\n\n" + "\n\n".join(defs) + "\n\nend Paho.Gen\n")
         files[fname] = text
-    files["Fn"] = fn_text
+    files.update(fn_texts)
     changed = []
     if write:
         os.makedirs(GEN_DIR, exist_ok=True)
